@@ -18,7 +18,7 @@ PROPS = {
     "C10": [(hs_server, ["C10_"])],
     "C14": [(hs_server, ["C14_"])],
     "C06": [(hs_server, ["C06_"]), (hs_client, ["C06_"]), (chan.C06, ["C06_"])],
-    "C08": [(hs_client, ["C08_"])],
+    "C08": [(hs_client, ["C08_"]), (clientlife, ["C08_ClientTruthful"])],
     "C01": [(codec.C01, ["C01_", "X_Harness"])],
     "C02": [(codec.C02, ["C02_", "X_Harness"])],
     "C11": [(codec.C11, ["C11_", "X_Harness"])],
